@@ -43,7 +43,12 @@ func TestPubSubChurn(t *testing.T) {
 		offL := rapid.IntRange(0, 63).Draw(t, "offLeavers")
 		offB := rapid.IntRange(0, 63).Draw(t, "offSenders")
 		offN := rapid.IntRange(0, 63).Draw(t, "offJoiner")
-		trace := []string{fmt.Sprintf("rounds=%d leavers=%d bulk=%v extraSenders=%d joiner=%v inspectors=%d offsets=%d/%d/%d", rounds, k, bulk, nB, joiner, inspectors, offL, offB, offN)}
+		// early: sender A is not given a head start; it is released by the same barrier as the leavers, so that the
+		// leavers meet it anywhere between "took the send locks" and "delivering"
+		early := rapid.IntRange(0, 2).Draw(t, "earlyLeave") == 0
+		offA := rapid.IntRange(0, 63).Draw(t, "offSenderA")
+		viaUnsub := rapid.Bool().Draw(t, "viaUnsubscribe")
+		trace := []string{fmt.Sprintf("rounds=%d leavers=%d bulk=%v extraSenders=%d joiner=%v inspectors=%d offsets=%d/%d/%d early=%v(offA=%d) viaUnsubscribe=%v", rounds, k, bulk, nB, joiner, inspectors, offL, offB, offN, early, offA, viaUnsub)}
 		vkit.CaseStart(func() string { return strings.Join(trace, " ; ") })
 		var (
 			mu       sync.Mutex
@@ -96,19 +101,24 @@ func TestPubSubChurn(t *testing.T) {
 			for i := 0; i < rounds && len(panics) == 0; i++ {
 				tokA := 1000*i + 1
 				x.Add(k)
-				ch := make(chan struct{})
-				armed.Store(&ch)
 				var wg sync.WaitGroup
-				wg.Add(1)
-				go func() {
-					defer wg.Done()
-					defer guard(fmt.Sprintf("round %d sender A", i))
+				sendA := func() {
 					n := x.Send(tokA)
 					mu.Lock()
 					returned[tokA] = n
 					mu.Unlock()
-				}()
-				<-ch // A has counted the k subscriptions and is delivering
+				}
+				if !early {
+					ch := make(chan struct{})
+					armed.Store(&ch)
+					wg.Add(1)
+					go func() {
+						defer wg.Done()
+						defer guard(fmt.Sprintf("round %d sender A", i))
+						sendA()
+					}()
+					<-ch // A has counted the k subscriptions and is delivering
+				}
 				var goNow atomic.Bool
 				var ready sync.WaitGroup
 				party := func(who string, off int, f func()) {
@@ -127,11 +137,18 @@ func TestPubSubChurn(t *testing.T) {
 						f()
 					}()
 				}
+				if early {
+					party("sender A", (offA+i*3)%64, sendA)
+				}
+				leave := func() { x.Add(-1) }
+				if viaUnsub {
+					leave = x.Unsubscribe
+				}
 				if bulk {
 					party("bulk leaver", (offL+i*7)%64, func() { x.Add(-k) })
 				} else {
 					for l := 0; l < k; l++ {
-						party(fmt.Sprintf("leaver %d", l), (offL+i*7+l*5)%64, func() { x.Add(-1) })
+						party(fmt.Sprintf("leaver %d", l), (offL+i*7+l*5)%64, leave)
 					}
 				}
 				for b := 0; b < nB; b++ {
@@ -205,6 +222,9 @@ func TestPubSubChurn(t *testing.T) {
 		cls := []string{fmt.Sprintf("leavers:%d", k), fmt.Sprintf("extra-senders:%d", nB)}
 		if joiner {
 			cls = append(cls, "joiner")
+		}
+		if early {
+			cls = append(cls, "early-leave")
 		}
 		st.Case(trace, nB > 0 || joiner, cls...)
 	})
